@@ -28,7 +28,7 @@ ASSUMPTIONS = [
     "output files are always written to an explicit path outside the payload",
 ]
 BUDGET = {
-    "quick": {"examples": 350, "workers": 8, "time_cap": 70},
+    "quick": {"examples": 450, "workers": 8, "time_cap": 70},
     "thorough": {"examples": 12000, "workers": 14, "time_cap": 900},
 }
 SPELLINGS = ["abs", "rel", "dot-rel", "inner-dotdot", "double-sep", "trailing-sep", "trailing-dot", "sub-dotdot", "cwd-dot"]
@@ -39,7 +39,7 @@ CLI_CREATORS = {"TorrentFile": "1", "Assembler2": "2", "Assembler3": "3"}
 def strategy(tier):
     @st.composite
     def case(draw):
-        creator = draw(st.sampled_from(["TorrentFile", "Assembler2", "Assembler3", "TorrentFileV2", "TorrentFileHybrid"]))
+        creator = draw(st.sampled_from(["TorrentFile", "TorrentFile", "Assembler2", "Assembler3", "TorrentFileV2", "TorrentFileHybrid"]))
         route = draw(st.sampled_from(["lib", "cli"])) if creator in CLI_CREATORS else "lib"
         P = draw(st.sampled_from([16384, 32768]))
         t = draw(trees.tree(P, max_files=6, cli_safe=True, big=False))
@@ -50,7 +50,7 @@ def strategy(tier):
             info_opts["source"] = draw(edits.text(cli_safe=True))
         if draw(st.booleans()):
             info_opts["comment"] = draw(edits.text(cli_safe=True))
-        dims = draw(st.lists(st.sampled_from(["spelling", "cwd", "copy", "order", "trackers", "progress", "clock", "outname"]),
+        dims = draw(st.lists(st.sampled_from(["spelling", "cwd", "copy", "order", "order", "trackers", "progress", "clock", "outname"]),
                              unique=True, min_size=draw(st.sampled_from([0, 1, 1, 1, 1, 1])), max_size=4))
         var = {"spelling": "abs", "cwd": "scratch", "copy": False, "order": 0, "announce": None, "url_list": None, "httpseeds": None,
                "progress": 0, "quiet": False, "clock": 1600000000, "outname": "o.torrent"}
